@@ -18,7 +18,7 @@ NA = {
 }
 
 CHECKS = {
- "C01": dict(engine="netsim+poolsim", technique="deterministic simulation with fault injection on the tap: valid simulated traffic through truncation, bit flips, IHL/total-length/data-offset/protocol/ethertype/version rewrites, TCP option rewrites, junk, spliced garbage, torn/flipped streams and database text; panic/overflow/hang capture; clean probe compared with a fresh instance under the same simulated clock",
+ "C01": dict(engine="netsim+poolsim", technique="deterministic simulation with fault injection on the tap: valid simulated traffic through truncation, bit flips, IHL/total-length/data-offset/protocol/ethertype/version rewrites, TCP option rewrites, junk, spliced garbage, torn/flipped streams and database text; panic/overflow/hang capture; clean probe compared with a fresh instance under the same simulated clock; the signature database is an input too (24 deterministic rewrites of the bundled text inside its grammar), logging on for 1 run in 4",
    text="Exploration with enumerated sub-spaces: seeded faulty histories into the four analyzers (per-packet path and the real packet loop), the incremental ClientHello reader, the HTTP/2 extractor, HttpProcessors and Database::from_str; systematic scenarios enumerate TCP option (kind,len,position) encodings in SYN and SYN+ACK, every truncation length and single-bit flips in the first 80 bytes of generated frames and of the frames of the four bundled pcaps. The build has overflow checks and debug assertions on, so arithmetic overflow is a panic; a 15 s per-run watchdog reports hangs.",
    note="For the purely input-quantified half ('all byte strings') this is seeded mutation of valid traffic plus the listed enumerations, not a proof. The worker-path half (dispatch hashing, worker liveness) is exercised by the poolsim engine.",
    design="4/C01"),
@@ -40,7 +40,7 @@ CHECKS = {
    design="4/C10"),
  "C11": dict(engine="netsim+poolsim", technique="deterministic simulation with a counting allocator as cost oracle: long never-fingerprinting connections (endless HTTP heads, binary after SYN, oversized/unfinished TLS records, application data after a non-hello record, random bytes) in parallel on one analyzer, and populations of thousands of short complete connections with distinct recurring values on an analyzer of capacity 1..4, simulated clock advancing past the TTLs; allocation and live-heap sampled around every delivered packet; poolsim part: the real worker pools under shuttle with every worker stalled (fault 'stalled node') while queue_size + k frames are handed over, queue sizes 1..100000",
    text="Exploration: per delivered segment the bytes allocated while handling it and the heap bytes live after it are compared with fixed bounds (live <= connections x 512 KiB + 1 MiB; per packet <= 4 MiB + 64 x packet length; median of a connection's last tenth <= 2 x first tenth + 2 MiB). Quick: up to 2000 segments per connection; thorough: up to 100000. Capacities 1/4/64/1000, 1..12 parallel connections, segment sizes 1..1460. Pool part: the depth of every worker queue (stats()) never exceeds the configured queue size while the workers are stalled, exactly the overflow is dropped and counted, and the queues drain afterwards.",
-   note="Constants are fixed in c11.rs and deliberately loose; they were revised (from 128 KiB / 256 KiB, then 2 MiB) after measuring the parsers' constant factor (17x..21x the buffered bytes in temporaries) and per-segment bookkeeping, before the repair was written - see DESIGN. Work is measured as bytes allocated, a proxy for time that is deterministic; CPU time is not measured.",
+   note="One oracle is timing-based (crowd scenario: thread CPU time of the last 250 packets <= 8 x max(first 250, 1 ms); healthy ratio ~1, a degenerate table >= 15): it is the only verdict in the harness that is not a pure function of the seed, and is built with an order of magnitude of margin on both sides. Constants are fixed in c11.rs and deliberately loose; they were revised (from 128 KiB / 256 KiB, then 2 MiB) after measuring the parsers' constant factor (17x..21x the buffered bytes in temporaries) and per-segment bookkeeping, before the repair was written - see DESIGN. Work is measured as bytes allocated, a proxy for time that is deterministic; CPU time is not measured.",
    design="4/C11"),
  "C15": dict(engine="netsim+poolsim", technique="deterministic simulation: seeded traces of well-formed and malformed frames (Ethernet/raw/NULL 0x1e/AF loopback framing incl. other platforms' family words in both byte orders, IPv4 IHL 0..15, total-length/protocol/ethertype/version lies, truncation) x generated FilterConfigs; filtered run vs unfiltered run on the admitted sub-trace at the same simulated times",
    text="Exploration: filters are generated from the trace's own endpoints so that each sub-filter matches about half of them; all four analyzers (the unified one through its real packet loop); poolsim part: a real worker pool created with the filter, under shuttle schedules, against the unfiltered sequential analyzer on the admitted sub-trace. Checked per packet: nothing is reported for endpoints the filter rejects (endpoints as the analyzer's own parser assigns them), and every admitted packet yields exactly what the unfiltered analyzer yields on the admitted sub-trace.",
